@@ -228,10 +228,19 @@ def run_basic(c):
     if what == "affine":
         d = 2 + (v[15] % 2)
         M = np.array(v[: d * d], float).reshape((d, d))
-        off = np.array(v[9 : 9 + d], float)
+        # matrix and offset of different types: integer-typed matrix with a fractional offset (and the other way round),
+        # arrays or plain nested lists
+        off = np.array(v[9 : 9 + d], float) + c.get("frac", 0) / 8
+        if c.get("idt"):
+            M = M.astype(np.int64)
+        elif c.get("turns"):
+            off, M = np.array(v[9 : 9 + d], dtype=np.int64), M / 4
+        if c["form"] == "tuple":
+            M, off = M.tolist(), off.tolist()
         t, f = call("affine_transform", affine_transform, M, off)
         if f:
             return [f]
+        M, off = np.asarray(M, float), np.asarray(off, float)
         p = np.array(v[12 : 12 + d], float)
         r = t.array @ np.append(p, 1.0)
         ck.check(np.allclose(r, np.append(M @ p + off, 1.0)), "affine_transform:Mx+b", r.tolist())
